@@ -134,7 +134,10 @@ fn run_seq_inner(cfg: Cfg, ops: &[Op], prop: &str) -> Option<(String, String)> {
         None if cfg.sched.interrupt != 0 => DeferredReader::from_boxed_dyn_read(Box::new(src)),
         None => DeferredReader::from_read(src),
     };
-    reader.set_chunk_size(cfg.sched.chunk);
+    // (capacity-0 BufReader: the chunk size the constructor chose stays, so that a constructor deriving it from the capacity shows)
+    if cfg.bufreader != Some(1000) {
+        reader.set_chunk_size(cfg.sched.chunk);
+    }
     let mut pos = 0usize;
     let mut mark = 0usize;
     let mut err_reported = false;
@@ -334,6 +337,8 @@ pub fn configs() -> Vec<Cfg> {
         v.push(Cfg { len: 24, sched: Sched { chunk: 2, mode: Mode::Step(3), fail_at, interrupt: 0 }, bufreader: Some(1005) });
     }
     v.push(Cfg { len: 0, sched: Sched { chunk: 4, mode: Mode::Step(100), fail_at: None, interrupt: 0 }, bufreader: Some(1005) });
+    // a BufReader of capacity 0 (a valid pass-through Read)
+    v.push(Cfg { len: 24, sched: Sched { chunk: 2, mode: Mode::Step(3), fail_at: None, interrupt: 0 }, bufreader: Some(1000) });
     v
 }
 fn cfg_args(c: &Cfg) -> Vec<String> {
